@@ -3,7 +3,7 @@ import MosnVerif.Model.DispatchCtxSpec
 /-!
 Driver of the kind `ctx` (shared by C02 and C07; core Lean only):
 
-  `ctx <proto> <frames> <chunks> => <as> <bs> <cls> <decoded classes> <acks> <residue length> <failed>`
+  `ctx <proto> <stream hex> <frames> <chunks> => <as> <bs> <cls> <decoded classes> <acks> <residue length> <failed>`
 
 `frames`: `,`-separated `k:id:tokF:tokR:len` with k = q (request) | o (one-way) | r (response) | h (heartbeat), as the
 real decoder classifies the frame in isolation; `chunks`: byte counts of the reads.  `as` / `bs`: per delivered request
